@@ -17,7 +17,7 @@ def effectTable : List FnRow := [
   ⟨[], []⟩,  -- 3 astral.LocationInfo.timezone_group
   ⟨[], []⟩,  -- 4 astral.LocationInfo.tzinfo
   ⟨[], [7]⟩,  -- 5 astral.Observer.__setattr__
-  ⟨[.readsClock, .io], [123]⟩,  -- 6 astral.__main__.<module>
+  ⟨[.readsClock, .io], [124]⟩,  -- 6 astral.__main__.<module>
   ⟨[], []⟩,  -- 7 astral.dms_to_float
   ⟨[], []⟩,  -- 8 astral.geocoder.<module>
   ⟨[.mutatesParam], [12, 15]⟩,  -- 9 astral.geocoder._add_location_to_db  (store through db)
@@ -47,41 +47,41 @@ def effectTable : List FnRow := [
   ⟨[], []⟩,  -- 33 astral.location.Location.__eq__
   ⟨[.mutatesParam], []⟩,  -- 34 astral.location.Location.__init__  (store through self; store through self; store through self)
   ⟨[], [42, 44, 50, 56, 67]⟩,  -- 35 astral.location.Location.__repr__
-  ⟨[], [42, 44, 67, 69, 71, 105]⟩,  -- 36 astral.location.Location.blue_hour
-  ⟨[], [42, 44, 59, 67, 69, 71, 106]⟩,  -- 37 astral.location.Location.dawn
-  ⟨[], [42, 44, 67, 69, 71, 107]⟩,  -- 38 astral.location.Location.daylight
-  ⟨[], [42, 44, 59, 67, 69, 71, 108]⟩,  -- 39 astral.location.Location.dusk
-  ⟨[], [42, 44, 67, 69, 71, 114]⟩,  -- 40 astral.location.Location.golden_hour
+  ⟨[], [42, 44, 67, 69, 71, 106]⟩,  -- 36 astral.location.Location.blue_hour
+  ⟨[], [42, 44, 59, 67, 69, 71, 107]⟩,  -- 37 astral.location.Location.dawn
+  ⟨[], [42, 44, 67, 69, 71, 108]⟩,  -- 38 astral.location.Location.daylight
+  ⟨[], [42, 44, 59, 67, 69, 71, 109]⟩,  -- 39 astral.location.Location.dusk
+  ⟨[], [42, 44, 67, 69, 71, 115]⟩,  -- 40 astral.location.Location.golden_hour
   ⟨[], [42, 44, 50, 56, 67]⟩,  -- 41 astral.location.Location.info
   ⟨[], []⟩,  -- 42 astral.location.Location.latitude
   ⟨[.mutatesParam], [7]⟩,  -- 43 astral.location.Location.latitude.setter  (store through self)
   ⟨[], []⟩,  -- 44 astral.location.Location.longitude
   ⟨[.mutatesParam], [7]⟩,  -- 45 astral.location.Location.longitude.setter  (store through self)
-  ⟨[], [42, 44, 67, 69, 71, 117]⟩,  -- 46 astral.location.Location.midnight
+  ⟨[], [42, 44, 67, 69, 71, 118]⟩,  -- 46 astral.location.Location.midnight
   ⟨[], [69, 87]⟩,  -- 47 astral.location.Location.moon_phase
   ⟨[], [42, 44, 67, 69, 71, 85]⟩,  -- 48 astral.location.Location.moonrise
   ⟨[], [42, 44, 67, 69, 71, 86]⟩,  -- 49 astral.location.Location.moonset
   ⟨[], []⟩,  -- 50 astral.location.Location.name
   ⟨[.mutatesParam], []⟩,  -- 51 astral.location.Location.name.setter  (store through self)
-  ⟨[], [42, 44, 67, 69, 71, 119]⟩,  -- 52 astral.location.Location.night
-  ⟨[], [42, 44, 67, 69, 71, 120]⟩,  -- 53 astral.location.Location.noon
+  ⟨[], [42, 44, 67, 69, 71, 120]⟩,  -- 52 astral.location.Location.night
+  ⟨[], [42, 44, 67, 69, 71, 121]⟩,  -- 53 astral.location.Location.noon
   ⟨[], [42, 44]⟩,  -- 54 astral.location.Location.observer
-  ⟨[], [42, 44, 67, 69, 71, 122]⟩,  -- 55 astral.location.Location.rahukaalam
+  ⟨[], [42, 44, 67, 69, 71, 123]⟩,  -- 55 astral.location.Location.rahukaalam
   ⟨[], []⟩,  -- 56 astral.location.Location.region
   ⟨[.mutatesParam], []⟩,  -- 57 astral.location.Location.region.setter  (store through self)
-  ⟨[], [42, 44, 71, 94, 104]⟩,  -- 58 astral.location.Location.solar_azimuth
+  ⟨[], [42, 44, 71, 94, 105]⟩,  -- 58 astral.location.Location.solar_azimuth
   ⟨[], []⟩,  -- 59 astral.location.Location.solar_depression
   ⟨[.mutatesParam], []⟩,  -- 60 astral.location.Location.solar_depression.setter  (store through self; store through self; store through self)
-  ⟨[], [42, 44, 71, 94, 110]⟩,  -- 61 astral.location.Location.solar_elevation
+  ⟨[], [42, 44, 71, 94, 111]⟩,  -- 61 astral.location.Location.solar_elevation
   ⟨[], [61]⟩,  -- 62 astral.location.Location.solar_zenith
-  ⟨[], [42, 44, 59, 67, 69, 71, 123]⟩,  -- 63 astral.location.Location.sun
-  ⟨[], [42, 44, 67, 69, 71, 131]⟩,  -- 64 astral.location.Location.sunrise
-  ⟨[], [42, 44, 67, 69, 71, 132]⟩,  -- 65 astral.location.Location.sunset
-  ⟨[], [42, 44, 67, 69, 71, 133]⟩,  -- 66 astral.location.Location.time_at_elevation
+  ⟨[], [42, 44, 59, 67, 69, 71, 124]⟩,  -- 63 astral.location.Location.sun
+  ⟨[], [42, 44, 67, 69, 71, 132]⟩,  -- 64 astral.location.Location.sunrise
+  ⟨[], [42, 44, 67, 69, 71, 133]⟩,  -- 65 astral.location.Location.sunset
+  ⟨[], [42, 44, 67, 69, 71, 134]⟩,  -- 66 astral.location.Location.time_at_elevation
   ⟨[], []⟩,  -- 67 astral.location.Location.timezone
   ⟨[.mutatesParam], []⟩,  -- 68 astral.location.Location.timezone.setter  (store through self)
-  ⟨[], [71, 142]⟩,  -- 69 astral.location.Location.today
-  ⟨[], [42, 44, 67, 69, 71, 135]⟩,  -- 70 astral.location.Location.twilight
+  ⟨[], [71, 143]⟩,  -- 69 astral.location.Location.today
+  ⟨[], [42, 44, 67, 69, 71, 136]⟩,  -- 70 astral.location.Location.twilight
   ⟨[], []⟩,  -- 71 astral.location.Location.tzinfo
   ⟨[], []⟩,  -- 72 astral.moon.<module>
   ⟨[], [26]⟩,  -- 73 astral.moon._phase_asfloat
@@ -96,9 +96,9 @@ def effectTable : List FnRow := [
   ⟨[], [77, 78, 79, 80, 81, 83, 90, 91, 92]⟩,  -- 82 astral.moon.moon_position
   ⟨[], []⟩,  -- 83 astral.moon.moon_position._calc_value
   ⟨[.mutatesParam], [89]⟩,  -- 84 astral.moon.moon_transit_event  (store through window; store through window; store through window)
-  ⟨[], [88, 142]⟩,  -- 85 astral.moon.moonrise
-  ⟨[], [88, 142]⟩,  -- 86 astral.moon.moonset
-  ⟨[], [73, 142]⟩,  -- 87 astral.moon.phase
+  ⟨[], [88, 143]⟩,  -- 85 astral.moon.moonrise
+  ⟨[], [88, 143]⟩,  -- 86 astral.moon.moonset
+  ⟨[], [73, 143]⟩,  -- 87 astral.moon.phase
   ⟨[], [28, 76, 82, 84, 89, 98]⟩,  -- 88 astral.moon.riseset
   ⟨[], []⟩,  -- 89 astral.moon.sgn
   ⟨[], []⟩,  -- 90 astral.moon.sun_mean_anomoly
@@ -111,59 +111,60 @@ def effectTable : List FnRow := [
   ⟨[], [28]⟩,  -- 97 astral.sidereal.gmst
   ⟨[], [97]⟩,  -- 98 astral.sidereal.lmst
   ⟨[], []⟩,  -- 99 astral.sun.<module>
-  ⟨[], [26, 31, 111]⟩,  -- 100 astral.sun._midnight_utc
-  ⟨[], [26, 31, 111]⟩,  -- 101 astral.sun._noon_utc
+  ⟨[], [26, 31, 112]⟩,  -- 100 astral.sun._midnight_utc
+  ⟨[], [26, 31, 112]⟩,  -- 101 astral.sun._noon_utc
   ⟨[], []⟩,  -- 102 astral.sun.adjust_to_horizon
   ⟨[], []⟩,  -- 103 astral.sun.adjust_to_obscuring_feature
-  ⟨[], [94, 138]⟩,  -- 104 astral.sun.azimuth
-  ⟨[], [133, 142]⟩,  -- 105 astral.sun.blue_hour
-  ⟨[], [134, 142]⟩,  -- 106 astral.sun.dawn
-  ⟨[], [131, 132, 142]⟩,  -- 107 astral.sun.daylight
-  ⟨[], [134, 142]⟩,  -- 108 astral.sun.dusk
-  ⟨[], []⟩,  -- 109 astral.sun.eccentric_location_earth_orbit
-  ⟨[], [94, 137]⟩,  -- 110 astral.sun.elevation
-  ⟨[], [109, 112, 113, 136]⟩,  -- 111 astral.sun.eq_of_time
-  ⟨[], []⟩,  -- 112 astral.sun.geom_mean_anomaly_sun
-  ⟨[], []⟩,  -- 113 astral.sun.geom_mean_long_sun
-  ⟨[], [133, 142]⟩,  -- 114 astral.sun.golden_hour
-  ⟨[], []⟩,  -- 115 astral.sun.hour_angle
-  ⟨[], []⟩,  -- 116 astral.sun.mean_obliquity_of_ecliptic
-  ⟨[], [100, 142]⟩,  -- 117 astral.sun.midnight
-  ⟨[], []⟩,  -- 118 astral.sun.minutes_to_timedelta
-  ⟨[], [106, 108, 142]⟩,  -- 119 astral.sun.night
-  ⟨[], [101, 142]⟩,  -- 120 astral.sun.noon
-  ⟨[], [116]⟩,  -- 121 astral.sun.obliquity_correction
-  ⟨[], [131, 132, 142]⟩,  -- 122 astral.sun.rahukaalam
-  ⟨[], [106, 108, 120, 131, 132, 142]⟩,  -- 123 astral.sun.sun
-  ⟨[], [130]⟩,  -- 124 astral.sun.sun_apparent_long
-  ⟨[], [121, 124]⟩,  -- 125 astral.sun.sun_declination
-  ⟨[], [112]⟩,  -- 126 astral.sun.sun_eq_of_center
-  ⟨[], [109, 129]⟩,  -- 127 astral.sun.sun_rad_vector
-  ⟨[], [121, 124]⟩,  -- 128 astral.sun.sun_rt_ascension
-  ⟨[], [112, 126]⟩,  -- 129 astral.sun.sun_true_anomoly
-  ⟨[], [113, 126]⟩,  -- 130 astral.sun.sun_true_long
-  ⟨[], [120, 134, 137, 142]⟩,  -- 131 astral.sun.sunrise
-  ⟨[], [120, 134, 137, 142]⟩,  -- 132 astral.sun.sunset
-  ⟨[], [134, 142]⟩,  -- 133 astral.sun.time_at_elevation
-  ⟨[], [26, 31, 95, 102, 103, 111, 115, 118, 125]⟩,  -- 134 astral.sun.time_of_transit
-  ⟨[], [106, 108, 131, 132, 142]⟩,  -- 135 astral.sun.twilight
-  ⟨[], [121]⟩,  -- 136 astral.sun.var_y
-  ⟨[], [94, 138]⟩,  -- 137 astral.sun.zenith
-  ⟨[], [26, 31, 95, 111, 125]⟩,  -- 138 astral.sun.zenith_and_azimuth
-  ⟨[], []⟩,  -- 139 astral.table4.<module>
-  ⟨[], []⟩,  -- 140 astral.time_to_hours
-  ⟨[], [140]⟩,  -- 141 astral.time_to_seconds
-  ⟨[], [94]⟩  -- 142 astral.today
+  ⟨[], [102, 103]⟩,  -- 104 astral.sun.adjustment_for_elevation
+  ⟨[], [94, 139]⟩,  -- 105 astral.sun.azimuth
+  ⟨[], [134, 143]⟩,  -- 106 astral.sun.blue_hour
+  ⟨[], [135, 143]⟩,  -- 107 astral.sun.dawn
+  ⟨[], [132, 133, 143]⟩,  -- 108 astral.sun.daylight
+  ⟨[], [135, 143]⟩,  -- 109 astral.sun.dusk
+  ⟨[], []⟩,  -- 110 astral.sun.eccentric_location_earth_orbit
+  ⟨[], [94, 138]⟩,  -- 111 astral.sun.elevation
+  ⟨[], [110, 113, 114, 137]⟩,  -- 112 astral.sun.eq_of_time
+  ⟨[], []⟩,  -- 113 astral.sun.geom_mean_anomaly_sun
+  ⟨[], []⟩,  -- 114 astral.sun.geom_mean_long_sun
+  ⟨[], [134, 143]⟩,  -- 115 astral.sun.golden_hour
+  ⟨[], []⟩,  -- 116 astral.sun.hour_angle
+  ⟨[], []⟩,  -- 117 astral.sun.mean_obliquity_of_ecliptic
+  ⟨[], [100, 143]⟩,  -- 118 astral.sun.midnight
+  ⟨[], []⟩,  -- 119 astral.sun.minutes_to_timedelta
+  ⟨[], [107, 109, 143]⟩,  -- 120 astral.sun.night
+  ⟨[], [101, 143]⟩,  -- 121 astral.sun.noon
+  ⟨[], [117]⟩,  -- 122 astral.sun.obliquity_correction
+  ⟨[], [132, 133, 143]⟩,  -- 123 astral.sun.rahukaalam
+  ⟨[], [107, 109, 121, 132, 133, 143]⟩,  -- 124 astral.sun.sun
+  ⟨[], [131]⟩,  -- 125 astral.sun.sun_apparent_long
+  ⟨[], [122, 125]⟩,  -- 126 astral.sun.sun_declination
+  ⟨[], [113]⟩,  -- 127 astral.sun.sun_eq_of_center
+  ⟨[], [110, 130]⟩,  -- 128 astral.sun.sun_rad_vector
+  ⟨[], [122, 125]⟩,  -- 129 astral.sun.sun_rt_ascension
+  ⟨[], [113, 127]⟩,  -- 130 astral.sun.sun_true_anomoly
+  ⟨[], [114, 127]⟩,  -- 131 astral.sun.sun_true_long
+  ⟨[], [104, 121, 135, 138, 143]⟩,  -- 132 astral.sun.sunrise
+  ⟨[], [104, 121, 135, 138, 143]⟩,  -- 133 astral.sun.sunset
+  ⟨[], [135, 143]⟩,  -- 134 astral.sun.time_at_elevation
+  ⟨[], [26, 31, 95, 102, 103, 112, 116, 119, 126]⟩,  -- 135 astral.sun.time_of_transit
+  ⟨[], [107, 109, 132, 133, 143]⟩,  -- 136 astral.sun.twilight
+  ⟨[], [122]⟩,  -- 137 astral.sun.var_y
+  ⟨[], [94, 139]⟩,  -- 138 astral.sun.zenith
+  ⟨[], [26, 31, 95, 112, 126]⟩,  -- 139 astral.sun.zenith_and_azimuth
+  ⟨[], []⟩,  -- 140 astral.table4.<module>
+  ⟨[], []⟩,  -- 141 astral.time_to_hours
+  ⟨[], [141]⟩,  -- 142 astral.time_to_seconds
+  ⟨[], [94]⟩  -- 143 astral.today
 ]
 
 /-- the public sun and moon functions (sun.__all__, moon.__all__, moon angles) -/
-def publicFns : List Nat := [123, 106, 131, 120, 117, 132, 108, 107, 119, 135, 105, 114, 122, 137, 104, 110, 133, 85, 86, 87, 74, 75, 93]
+def publicFns : List Nat := [124, 107, 132, 121, 118, 133, 109, 108, 120, 136, 106, 115, 123, 138, 105, 111, 134, 85, 86, 87, 74, 75, 93]
 
 /-- the public geocoder functions (module-level, not underscore-prefixed) -/
 def geoFns : List Nat := [16, 17, 18, 19, 20, 21]
 
 /-- the functions of astral.julian and the time-unit helpers of astral/__init__ -/
-def julianFns : List Nat := [22, 24, 25, 26, 27, 28, 29, 30, 31, 140, 141]
+def julianFns : List Nat := [22, 24, 25, 26, 27, 28, 29, 30, 31, 141, 142]
 
 /-- every method of `Location` that is a query: not `__init__`, not a property setter -/
 def locationQueryFns : List Nat := [33, 35, 36, 37, 38, 39, 40, 41, 42, 44, 46, 47, 48, 49, 50, 52, 53, 54, 55, 56, 58, 59, 61, 62, 63, 64, 65, 66, 67, 69, 70, 71]
